@@ -10,15 +10,19 @@
                   scatter derivative = adjoint, exact); ConcatenatedModel over arbitrary layers with optimisation flags (round trip skips
                   frozen layers, batch = single, chain rule with gradient blocks only for optimised layers; instantiated for Conv2D /
                   Linear / Neuron / Pooling / Resize layers); RBFLayer (batch = single, round trip through log(gamma)); CMACMap (linear in
-                  the parameters, scatter derivative = gradient, exact); Ensemble (batch = single).
+                  the parameters, scatter derivative = gradient, exact); Ensemble (batch = single); KernelExpansion for any kernel (batch =
+                  single, round trip, independence of the basis batching, linear in the parameters); softmax / normaliser: coded
+                  multiplyDerivative = adjoint of the dual-number tangent over every field, lifted to LinearModel layers and (softmax)
+                  to concatenations.
   correspondence  extracted model (float instantiation) vs harness/c04_models.cpp compiled from /repo on generated cases:
                   LinearModel x 7 activations, NeuronLayer x 7, Normalizer, Classifier<LinearModel>, Conv2DModel x activations (both
                   paddings, even / odd / one-sided / image-sized / larger-than-image filters, channels and filters > 1), PoolingLayer
                   (incl. tie and non-divisible streams), ResizeLayer, RBFLayer, CMACMap, Ensemble<LinearModel>, ConcatenatedModel of
                   any of these with optimisation flags on/off (parameter vector, features, eval, all three derivative calls);
                   exact on dyadic inputs with Linear / Rectifier activations, for pooling, CMAC and (bit for bit: same order of floating
-                  point operations) ResizeLayer; 1e-12 relative otherwise.  Not modelled: KernelExpansion.
-  spec monitor    (independent of the model, on ALL anchored classes: the above + KernelExpansion)
+                  point operations) ResizeLayer; 1e-12 relative otherwise.  KernelExpansion with Linear / Polynomial / Gaussian kernels,
+                  basis in explicitly given unequal batches (KEXB), offset on/off, zero rows of alpha: exact on integer data.
+  spec monitor    (independent of the model, on ALL anchored classes)
                   batch eval with state = without state = eval(single) = operator() = row alone = row in a reversed / padded batch;
                   numberOfParameters = independent formula = length of parameterVector(), set/get round trip;
                   combined derivative call = separate calls; both = central finite differences of the weighted output sum.
@@ -492,7 +496,8 @@ def main():
         "finite differences (h = 2^-17, central, kinks detected by forward/backward disagreement) are the ground truth of the derivative monitor"]
     ck.assumptions = [
         "derivative theorems: element-wise activations enter as a pair (phi, dphi) with the derivative written in the OUTPUT, as in NeuronLayers.h; that dphi o phi is the analytic derivative of tanh/logistic/fast sigmoid is monitored by finite differences, not proved",
-        "softmax / normaliser row activations (also inside Conv2DModel / NeuronLayer): compared, their derivative theorems are not proved; RBFLayer derivative: compared only; KernelExpansion: monitored only",
+        "softmax / normaliser: derivative theorems over every field with the dual quotient / exponential for LinearModel layers (softmax also in concatenations); inside Conv2DModel / NeuronLayer compared only; RBFLayer parameter derivative: compared only",
+        "KernelExpansion: the kernel is an abstract function in the theorems; the old KEXP cases (basis cut by createDataFromRange) are compared against a one-batch model, justified by C04_kexp_blocks",
         "max pooling is not differentiable at ties: the theorems give the tie rule (first maximum) and the exact derivative where the arg max does not move; the comparison with the model covers ties exactly",
         "ResizeLayer: proved linear with the scatter derivative as adjoint for arbitrary weights; that the weights are B-spline weights is not proved; the sample points of setStructure are modelled as coded",
         "RBFLayer round trip theorem assumes log(exp x) = x (reals); in floating point the check compares at 1e-12",
@@ -603,7 +608,7 @@ def main():
                      "correspondence C04Model vs %s no longer checks (%s; %d cases differ); the spec monitor passes on these inputs" % (c.an.name, why, len(dis)), no_input=True)
     ck.oblige("spec monitor (batch = single, parameter round trip, combined = separate, derivatives = finite differences) on %d cases of %d model classes" % (len(cases), len(per_class)),
               nfail == 0, "" if not nfail else "%d failures (%d distinct keys)" % (nfail, len([k for k in allkeys if ck.match_known(k) is None])))
-    ck.oblige("correspondence C04 models (float instantiation) = LinearModel / NeuronLayer / Normalizer / Classifier / Conv2DModel / PoolingLayer / ResizeLayer / RBFLayer / CMACMap / Ensemble / ConcatenatedModel with optimisation flags on %d cases" % ncmp, not dis,
+    ck.oblige("correspondence C04 models (float instantiation) = LinearModel / NeuronLayer / Normalizer / Classifier / Conv2DModel / PoolingLayer / ResizeLayer / RBFLayer / CMACMap / Ensemble / KernelExpansion / ConcatenatedModel with optimisation flags on %d cases" % ncmp, not dis,
               "" if not dis else "%d disagreements, first: %s" % (len(dis), dis[0][1]))
     open(os.path.join(tmpd, "failing_cases.txt"), "w").write("\n".join(faillog) + "\n")
     ck.cov["evaluations"] = evals
